@@ -426,6 +426,59 @@ var directed = []func(s *rsScript){
 		c := s.conn(rsConnect{id: strings.Repeat("k", 32766), ver: 4})
 		s.sub(c, "a/b", 1)
 	},
+	// several records per type whose keys sort so that records with many non-default fields and records
+	// with none alternate (a decoder reusing one struct for all records would carry fields over): three
+	// sessions with mixed connect settings, six subscriptions with mixed options, in-flight and retained
+	// messages with and without properties
+	func(s *rsScript) {
+		full := func(pk *packets.Packet) {
+			pk.Properties.PayloadFormat, pk.Properties.PayloadFormatFlag = 1, true
+			pk.Properties.MessageExpiryInterval = 600
+			pk.Properties.ContentType, pk.Properties.ResponseTopic = "text/ü", "r:1/t"
+			pk.Properties.CorrelationData = []byte{0, 1, 255}
+			pk.Properties.User = []packets.UserProperty{{Key: "k:", Val: "v_"}}
+		}
+		subOpt := func(c *rsClient, f string, sub packets.Subscription, ident int) {
+			sub.Filter = f
+			pk := packets.Packet{FixedHeader: packets.FixedHeader{Type: packets.Subscribe, Qos: 1}, PacketID: c.pid(), Filters: packets.Subscriptions{sub}}
+			if ident > 0 {
+				pk.Properties.SubscriptionIdentifier = []int{ident}
+			}
+			s.note("subscribe id=%q %v ident=%d", c.id, sub, ident)
+			s.b.send(c, pk)
+		}
+		m0 := s.conn(rsConnect{id: "m0", ver: 4})
+		m1 := s.conn(rsConnect{id: "m1", ver: 5, sei: 3600, seiFlag: true, will: true, willDly: 7, willRet: true, username: "u:1", recvMax: 9})
+		m2 := s.conn(rsConnect{id: "m2", ver: 3})
+		m3 := s.conn(rsConnect{id: "m3", ver: 5, sei: 50, seiFlag: true, username: "u3"})
+		subOpt(m0, "p/0", packets.Subscription{Qos: 0}, 0)
+		subOpt(m1, "p/1", packets.Subscription{Qos: 2, RetainAsPublished: true, RetainHandling: 2}, 7)
+		subOpt(m1, "q", packets.Subscription{Qos: 0}, 0)
+		subOpt(m2, "p/2", packets.Subscription{Qos: 1}, 0)
+		subOpt(m3, "a", packets.Subscription{Qos: 2, NoLocal: true, RetainAsPublished: true, RetainHandling: 1}, 9)
+		subOpt(m3, "p/1", packets.Subscription{Qos: 1}, 0)
+		subOpt(m3, "z", packets.Subscription{Qos: 0, NoLocal: true}, 3)
+		pf := s.conn(rsConnect{id: "pf", ver: 5, clean: true})
+		pb := s.conn(rsConnect{id: "pb", ver: 4, clean: true})
+		send := func(c *rsClient, topic string, retain, props bool) {
+			pk := packets.Packet{FixedHeader: packets.FixedHeader{Type: packets.Publish, Qos: 1, Retain: retain}, TopicName: topic,
+				Payload: []byte("x" + topic), PacketID: c.pid()}
+			if props {
+				full(&pk)
+			}
+			s.note("publish id=%q topic=%q retain=%v props=%v", c.id, topic, retain, props)
+			s.b.send(c, pk)
+		}
+		send(pf, "p/1", false, true)  // m1 and m3: packet id 1, all properties
+		send(pb, "p/1", false, false) // m1 and m3: packet id 2, none
+		send(pb, "p/2", false, false) // m2: packet id 1, none
+		send(pf, "p/2", false, true)  // m2: packet id 2, all properties
+		send(pb, "p/0", false, false)
+		send(pf, "r/1", true, true)
+		send(pb, "r/2", true, false)
+		send(pf, "r/3", true, true)
+		send(pb, "r/0", true, false)
+	},
 	// refused filters (invalid, not authorised) mixed with accepted ones, for MQTT 3.1, 3.1.1 and 5 sessions
 	func(s *rsScript) {
 		for i, ver := range []byte{3, 4, 5} {
@@ -643,6 +696,8 @@ func engCrash(seed int64, tier string, _ []string, out *sx.Out) {
 			bes = []int{beBadger, bePebble, beBolt, beRedis}
 		case tier == "thorough":
 			bes = []int{bePebble, beBolt, beRedis}
+		case i+len(directed) == 2: // the take-over history: the hooks of every back end see a superseded client
+			bes = []int{beBadger, bePebble, beBolt, beRedis}
 		case i < 0:
 			bes = []int{beBolt, beRedis}
 		default:
